@@ -135,7 +135,39 @@ def load_module(it, dotted):
         it.env_stack.pop()
         # import-time effects are not part of any function's trace (module import-time execution is dropped, DESIGN 2.4)
         del it.path.events[n_events0:]
+    _module_state_history(it, m, tree)
     return m
+
+
+_MUTATORS = {'setdefault', 'update', 'pop', 'popitem', 'clear', 'append', 'extend', 'insert', 'add', 'remove', 'discard'}
+
+
+def _module_state_history(it, m, tree):
+    """process-wide state: a module-level dict that FUNCTIONS of the module fill (a cache, a registry) holds, when a function is
+    called, whatever arbitrary earlier calls left in it.  Its contents are unknown to a contract that is stated for one call: a
+    lookup may hit (arbitrary value) or miss, and a verdict reached through a hit needs an invariant over the cache that the
+    contract does not state (-> undecided, never 'proved' on the strength of an empty cache)"""
+    from .values import PyDict, IntS
+    names = set()
+    for fn in ast.walk(tree):
+        if not isinstance(fn, (ast.FunctionDef, ast.AsyncFunctionDef, ast.Lambda)):
+            continue
+        for n in ast.walk(fn):
+            t = None
+            if isinstance(n, ast.Subscript) and isinstance(n.ctx, (ast.Store, ast.Del)):
+                t = n.value
+            elif isinstance(n, ast.Call) and isinstance(n.func, ast.Attribute) and n.func.attr in _MUTATORS:
+                t = n.func.value
+            if isinstance(t, ast.Name):
+                names.add(t.id)
+    for name in sorted(names):
+        v = m.attrs.get(name)
+        if isinstance(v, PyDict) and not v.d and getattr(v, 'history', None) is None:
+            # (only if the name is bound at module level to an empty dict literal: local variables of the same name shadow it)
+            bound_here = any(isinstance(st, ast.Assign) and any(isinstance(t, ast.Name) and t.id == name for t in st.targets)
+                             for st in tree.body)
+            if bound_here:
+                v.history = it.fresh('module_state_' + name, IntS)
 
 
 def _bound_names(st):
